@@ -97,15 +97,30 @@ def generated():
     both tiers.'''
     from vf.oracles import t4synth
     out = {}
-    num = 0
+    num, mixed = 0, False
     for seed in range(400):
         rng = core.rng_for('C11', 'generated', seed)
-        text = t4synth.write_listing(t4synth.gen_truth(rng)).encode()
-        if 4000 < len(text) <= SMALL and text.count(b'RESULTS ARE') >= 2:
+        truth = t4synth.gen_truth(rng)
+        text = t4synth.write_listing(truth).encode()
+        if text.count(b'RESULTS ARE') < 2:
+            continue
+        # one listing in which some steps of a spectrum are converged and
+        # later ones are not yet (early editions of a killed job)
+        is_mixed = any(
+            isinstance(zone['steps'][0]['integrated'], tuple) and any(
+                step['integrated'] == 'not_converged'
+                for step in zone['steps'][1:])
+            for edi in truth['editions'] for resp in edi['responses']
+            for zone in resp['zone_data'] if not zone.get('mesh'))
+        if num < 2 and 4000 < len(text) <= SMALL:
             out[f'generated_{num}.res'] = text
             num += 1
-            if num == 2:
-                break
+            mixed = mixed or is_mixed
+        elif is_mixed and not mixed and len(text) <= 4 * SMALL:
+            out['generated_mixed_convergence.res'] = text
+            mixed = True
+        if num == 2 and mixed:
+            break
     return out
 
 
